@@ -28,6 +28,8 @@ func SendAccountDebitRequest(
 	if err != nil {
 		return nil, err
 	}
+	// one connection per request: release it (and its serve / watchdog tasks) when the request is over
+	defer conn.Close()
 
 	meta, ok := smpeer.FromContext(conn.Context())
 	if !ok {
